@@ -136,14 +136,8 @@ Proof. exact rng_unseeded_depends_on_state. Qed.
 
 (* ---- non-vacuity ------------------------------------------------------------------------------------------------ *)
 (* a history with a native construction under a mask, a dataset, cached reads, arithmetic, slicing, trimming, a valued
-   mapper with an all-False pixel mask and both inversion factories: it respects the discipline under the code's policy,
+   mapper with an all-False pixel mask and both inversion factories ([example_history] in Proofs/C11.v): it respects the discipline under the code's policy,
    stays outside the finding class, and its observations are not trivial *)
-Definition example_history : list op :=
-  [ONew [5; 6; 7; 8]%Z; OConstruct (SIn 0) [false; true; false; false] true false; ORead 0 1; OArith 0 [2; 3]%Z 1%Z;
-   ORead 1 1; OSlice 1 [true; false; true]; ORead 2 1; OConstruct (SIn 0) [false; false; false; false] true true;
-   OAlias 3; ORead 4 7; OTrim 4 [false; true; true; false]; ORead 5 7; OCopy 0; ORead 6 1;
-   ONew [1; 2; 3]%Z; OValued 1 [false; false; false]; OValuesMasked 7; OMapRecon 7 0 0; OPeekIn 1;
-   ONew [1]%Z; OImaging 2; OInterf 2; OImaging 2; OPeekIn 0].
 Example C11_hyps_satisfiable :
   run_ok qf_sum faithful example_history = true /\ avoids_findings qf_sum example_history = true /\
   safe disciplined = true /\
